@@ -178,6 +178,18 @@ Theorem C14_statement_fault_discard : forall id s (ord1 ord2 : order) (f : write
 Proof. exact Txn_proofs.statement_fault_discard. Qed.
 Print Assumptions C14_statement_fault_discard.
 
+(** Another writer between an interrupted Commit and its re-run (outside the scope of the
+    theorems above, which compare with the pre-transaction state): from ANY state, a branch whose
+    reflog already carries the transaction id is never written by Commit again, at any cut point -
+    whatever its head is now.  So an ordinary commit that landed on it meanwhile stays the head, no
+    second copy of the transaction's commit is stacked and no second log entry is made. *)
+Theorem C14_landed_branch_untouched : forall id s (ord : order) n b c,
+  tx_log_new id (logs s b) = Some c ->
+  let s1 := fst (run_upto n (tx_commit ord id s) s) in
+  heads s1 b = heads s b /\ logs s1 b = logs s b.
+Proof. exact Txn_proofs.landed_branch_untouched. Qed.
+Print Assumptions C14_landed_branch_untouched.
+
 (** The enumeration orders the executable model is run with are permutations. *)
 Theorem C14_orders : forall perm l, NoDup perm -> order_ok (ord_by perm) l.
 Proof. exact Txn_proofs.ord_by_ok. Qed.
